@@ -21,24 +21,29 @@ NATIVE_CANDIDATES = ["ceil", "floor", "round", "abs", "toInt", "toFloat", "toStr
 
 
 # ------------------------------------------------------------------ Coq build of the owned files
+COQ_DEPS = {"Model/Json.v": [], "Proofs/JsonProofs.v": ["Model/Json.v"], "Corr/Corr09.v": ["Model/Json.v", "Model/Str.v"]}
+
+
 def ensure_coq():
     """Compile Model/Json.v, Proofs/JsonProofs.v, Corr/Corr09.v when their .vo is missing or older than
-    a source they depend on (they may not be listed in _CoqProject yet).  Str.vo must exist (coq_make)."""
+    their source or a .vo they depend on (they may not be listed in _CoqProject yet; once they are,
+    coq_make has already built them and this is a no-op)."""
     common.coq_make()
     with common.Lock("coqmake"):
-        newest = 0.0
         for f in COQ_FILES:
             src = os.path.join(common.COQ, f)
             vo = src[:-2] + ".vo"
-            newest = max(newest, os.path.getmtime(src))
-            if os.path.exists(vo) and os.path.getmtime(vo) >= newest:
-                newest = max(newest, 0.0)
+            need = not os.path.exists(vo) or os.path.getmtime(vo) < os.path.getmtime(src)
+            for dep in COQ_DEPS[f]:
+                dvo = os.path.join(common.COQ, dep[:-2] + ".vo")
+                if not need and os.path.exists(dvo) and os.path.getmtime(vo) < os.path.getmtime(dvo):
+                    need = True
+            if not need:
                 continue
             r = common.sh(["timeout", "900", "coqc", "-q", "-Q", ".", "DS", f], cwd=common.COQ)
             common.log(f"[coq] coqc {f} rc={r.returncode}")
             if r.returncode != 0:
                 raise Broken("coq-build " + f, r.stdout[-4000:])
-            newest = max(newest, os.path.getmtime(vo))
 
 
 # ------------------------------------------------------------------ Coq terms
